@@ -20,6 +20,7 @@ func init() {
 		fmt.Sscan(in[3], &b)
 		fwr(c, unhx(in[0]), unhx(in[1]), a, b)
 	}
+	replayers["CRS"] = func(c *ctx, in []string) { crs(c, unhx(in[0]), unhx(in[1]), key4(in[2])) }
 	replayers["FRP"] = func(c *ctx, in []string) {
 		var n, k, kinds, n2 int
 		fmt.Sscan(in[0], &n)
@@ -192,6 +193,13 @@ func runC18Rimpl(c *ctx) {
 	}
 	u8rs(c, []byte("abc"), nil, "4096")
 	u8rs(c, []byte("\xe2\x82"), []byte("\xac"), "1")
+	u8rsPending(c)
+	// CipherReader reset onto the SAME source object with the SAME key after k bytes (k not a multiple of 4)
+	for k := 0; k <= 9; k++ {
+		for _, n := range []int{0, 1, 5, 8, 13} {
+			crs(c, c.payload(k), c.payload(n), [4]byte{0x11, 0x22, 0x33, byte(0x40 + k)})
+		}
+	}
 	// compression reader: a BIG first message abandoned after k bytes (its source not drained), then
 	// Reset onto a source of another kind (io.ByteReader or not)
 	for _, n := range []int{300, 70000, 200000} {
@@ -204,6 +212,31 @@ func runC18Rimpl(c *ctx) {
 			}
 		}
 	}
+}
+
+func u8rsPending(c *ctx) {
+	// the stream before the Reset ends INSIDE a multi-byte sequence (pending decoder state); the one after it is
+	// valid, empty, or starts with just the continuation bytes that would complete the old sequence
+	for _, before := range []string{"\xc3", "\xe2", "\xe2\x82", "\xf0", "\xf0\x9f", "\xf0\x9f\x98", "ok \xe2\x82", "\xe2\x82\xac\xf0\x9f"} {
+		for _, after := range []string{"", "plain", "\xe2\x82\xac", "\xac", "\x82\xac", "\x98\x80", "\xa9", "\x80\x80\x80", "z\xc3\xa9"} {
+			u8rs(c, []byte(before), []byte(after), []string{"1", "4096", "2,7,1"}[(len(before)+len(after))%3])
+		}
+	}
+}
+
+// CRS: CipherReader.Reset(sameSource, sameKey) in the middle of a stream restarts the key stream
+func crs(c *ctx, before, after []byte, key [4]byte) {
+	all := append(append([]byte(nil), before...), after...)
+	src := bytes.NewReader(all)
+	cr := wsutil.NewCipherReader(src, key)
+	io.ReadFull(cr, make([]byte, len(before)))
+	cr.Reset(src, key)
+	x := make([]byte, len(after)+1)
+	xn, _ := io.ReadFull(cr, x)
+	cf := wsutil.NewCipherReader(bytes.NewReader(after), key)
+	y := make([]byte, len(after)+1)
+	yn, _ := io.ReadFull(cf, y)
+	c.emit("CRS %s %s %s -> %s %s", hx(before), hx(after), hx(key[:]), hx(x[:xn]), hx(y[:yn]))
 }
 
 type plainReader struct{ r io.Reader }
